@@ -39,6 +39,10 @@ pub enum Step {
     ToEnd,
     /// go to the next multiple of 2^k (bucket edges for any low width), minus one if the flag is set
     Edge(u8, bool),
+    /// stay on the same value and add this many more copies (heavy duplicates: the unary-coded high part gets long runs of ones)
+    Repeat(u16),
+    /// this many further values, each a small irregular step (1..=k) after the previous one
+    Spread(u16, u8),
 }
 
 impl Case {
@@ -50,11 +54,27 @@ impl Case {
         }
         let mut cur = 0usize;
         for &(step, copies) in &self.steps {
+            if let Step::Repeat(count) = step {
+                for _ in 0..count {
+                    out.push(cur.min(n - 1));
+                }
+                continue;
+            }
+            if let Step::Spread(count, k) = step {
+                let mut x = cur as u64 ^ 0x9e3779b97f4a7c15;
+                for _ in 0..count {
+                    x = x.wrapping_mul(6364136223846793005).wrapping_add(1442695040888963407);
+                    cur = cur.saturating_add(1 + ((x >> 33) as usize % (k as usize + 1))).min(n - 1);
+                    out.push(cur);
+                }
+                continue;
+            }
             cur = match step {
                 Step::Same => cur,
                 Step::Small(d) => cur.saturating_add(d as usize),
                 Step::Frac(f) => cur.saturating_add((((n - 1 - cur.min(n - 1)) as u128 * f as u128) >> 16) as usize),
                 Step::ToEnd => n - 1,
+                Step::Repeat(_) | Step::Spread(_, _) => cur,
                 Step::Edge(k, minus) => {
                     let unit = 1usize << (k % 63);
                     let next = (cur / unit).saturating_add(1).saturating_mul(unit);
@@ -170,7 +190,18 @@ impl Prop for C15 {
             1 => Just(Step::ToEnd),
             2 => (0u8..63, any::<bool>()).prop_map(|(k, m)| Step::Edge(k, m)),
         ];
-        (universe, proptest::collection::vec((step, prop_oneof![3 => Just(0u8), 2 => 0u8..6]), 0..120), 0u8..4, proptest::collection::vec(0u16..12, 0..8), proptest::collection::vec(any::<bool>(), 0..12), proptest::collection::vec(any::<u64>(), 0..16))
+        let heavy = prop_oneof![
+            2 => (20_000u16..=65_535).prop_map(Step::Repeat),
+            2 => (1000u16..9000, 1u8..=200).prop_map(|(c, k)| Step::Spread(c, k)),
+            1 => any::<u16>().prop_map(Step::Frac),
+            1 => (0u8..4).prop_map(Step::Small),
+        ];
+        // a few very large multisets: the high bitvector then exceeds 83 521 bits and has long and short select superblocks
+        let steps = prop_oneof![
+            40 => proptest::collection::vec((step, prop_oneof![3 => Just(0u8), 2 => 0u8..6]), 0..120),
+            1 => proptest::collection::vec((heavy, Just(0u8)), 3..9),
+        ];
+        (universe, steps, 0u8..4, proptest::collection::vec(0u16..12, 0..8), proptest::collection::vec(any::<bool>(), 0..12), proptest::collection::vec(any::<u64>(), 0..16))
             .prop_map(|(universe, steps, route, arbitrary, pattern, extra)| Case { universe, steps, route, arbitrary, pattern, extra })
             .boxed()
     }
@@ -268,6 +299,7 @@ impl Prop for C15 {
             best
         };
         rep.class_if(longest >= 10, "duplicate-run>=10");
+        rep.class_if(m >= 60_000, "m>=60000(long select superblocks in the high part possible)");
         if has_dup {
             rep.nontrivial(hash_of(&(n, &vals)));
         }
@@ -275,7 +307,7 @@ impl Prop for C15 {
     }
 
     fn health(classes: &BTreeMap<String, u64>, _tier: Tier) -> Result<(), String> {
-        for c in ["overfull", "duplicate-at-0", "duplicate-at-last-position", "universe>=2^32", "single-value", "duplicate-run>=10", "bit-iterator-interleaved", "try_from_iter:accepted", "try_from_iter:rejected", "route:0", "route:1", "route:2", "route:3"] {
+        for c in ["overfull", "duplicate-at-0", "duplicate-at-last-position", "universe>=2^32", "single-value", "duplicate-run>=10", "m>=60000(long select superblocks in the high part possible)", "bit-iterator-interleaved", "try_from_iter:accepted", "try_from_iter:rejected", "route:0", "route:1", "route:2", "route:3"] {
             if classes.get(c).copied().unwrap_or(0) == 0 {
                 return Err(format!("no generated case reached class {}", c));
             }
